@@ -287,6 +287,7 @@ class Run:
         self.repeat_diff = 0     # repeated query returned something else
         self.illformed = []      # queried indices not strictly increasing ints in range
         self.update_exc = []     # (chunk index, enum) for updates fed with the query result
+        self.query_exc = []      # (chunk index, enum): query raised
         self.boundary = 0        # guard evaluated exactly on the boundary
         self.thetas = []         # BIQF quantiles in call order
         self.rs = None
@@ -335,11 +336,17 @@ def run_case(spec, check_purity=True, extra_at=None):
             uchunk = np.array(utils[off:off + n], dtype=float) if not is_base else None
             before = snap_obj(obj) if check_purity else None
             nq0 = len(qlog)
-            if is_base:
-                idx, ut = obj.query(cand, return_utilities=True)
-            else:
-                idx = obj.query_by_utility(uchunk)
-                ut = None
+            try:
+                if is_base:
+                    idx, ut = obj.query(cand, return_utilities=True)
+                else:
+                    idx = obj.query_by_utility(uchunk)
+                    ut = None
+            except Exception as e:  # noqa: BLE001
+                run.segments.append("query-raised " + err_enum(e))
+                run.query_exc.append((ci, err_enum(e)))
+                run.stopped = True
+                break
             run.thetas += qlog[nq0:]
             if check_purity:
                 after = snap_obj(obj)
@@ -666,15 +673,26 @@ def run_history(make, ops, extra_at=None):
     extra_at = extra_at or {}
     with np.errstate(all="ignore"):
         for ci, cand in enumerate(ops):
-            for where, xc in extra_at.get(ci, []):
-                if where == "before":
-                    strat_query(qs, xc)
-            idx, ut = strat_query(qs, cand)
+            try:
+                for where, xc in extra_at.get(ci, []):
+                    if where == "before":
+                        strat_query(qs, xc)
+                idx, ut = strat_query(qs, cand)
+            except Exception as e:  # noqa: BLE001  (a query that raises is an observable result, not a harness crash)
+                outs.append(("q", "raised " + err_enum(e)))
+                problems.append((ci, "query raised " + err_enum(e), []))
+                snaps.append(snap_obj(qs))
+                break
             outs.append(("q", [int(i) for i in idx], [f2bits(v) for v in np.asarray(ut, dtype=float)]))
             snaps.append(snap_obj(qs))
-            for where, xc in extra_at.get(ci, []):
-                if where == "between":
-                    strat_query(qs, xc)
+            try:
+                for where, xc in extra_at.get(ci, []):
+                    if where == "between":
+                        strat_query(qs, xc)
+            except Exception as e:  # noqa: BLE001
+                outs.append(("q-extra", "raised " + err_enum(e)))
+                problems.append((ci, "query raised " + err_enum(e), []))
+                break
             try:
                 strat_update(qs, cand, idx, ut)
                 outs.append(("u", "ok"))
